@@ -21,16 +21,21 @@ def run(c):
         harness(c, 6000)
 
     return c.finish(
-        rule="random scenarios: 1-4 recipients (ASCII, IDN, A-label, upper-case spellings), max_tries 1-4, atomic or per-recipient downstream, bounce route on/off, "
+        rule="random scenarios: 1-4 recipients (ASCII, IDN, A-label, upper-case spellings), in a third of the cases 2-4 of up to 6 recipients are DIFFERENT recipients spelling one mailbox "
+        "(equal under address.ForLookup: case of the local part / of the domain, A-labels vs U-labels, NFC vs NFD) with different per-recipient outcomes, "
+        "max_tries 1-4, atomic or per-recipient downstream, bounce route on/off, "
         "plus the same queue on top of the REAL remote target talking to a scripted go-smtp server (SMTPUTF8 on/off, IDN/non-ASCII/upper-case recipients, RCPT 450/550, DATA 451/554 per attempt; ground truth = what the server holds); "
         "plus the queue on top of the REAL target.remote / target.smtp / target.lmtp against next hops misbehaving in mid-session (C01 hop: 1-5 recipients, >= 3 of one domain in most cases, "
         "own MX per domain; per attempt: the first N MAIL commands refused, a per-transaction recipient limit after k accepted RCPTs, DATA refused / failing after the final dot, LMTP per-recipient statuses "
         "and a drop after j of them, RSET/QUIT faults; each fault = 4xx | 5xx | 552 | 421+close | connection closed | reset | silence until the (wall-clock independent) time-out; "
+        "the spooled body handed to the target cannot be opened / its reader fails after k octets (k = 0, inside the first lines, in the middle of 8.6 KB, inside the last line, after the last octet; "
+        "error alone or together with the last octets) for each of the three targets in every run; several spellings of one mailbox (local-part case, NFC/NFD, A-label/U-label) as different "
+        "recipients, one refused and one accepted in the same attempt, told apart at the hop by their spelling on the wire; "
         "ground truth = recipients of the transactions the hop acknowledged with 250; model = Model/QueueHop.lean); "
         "one fault plan per attempt (start / per-recipient / body / per-recipient body status / commit, each ok|temporary|permanent|unclassified, fault density 10-90%); "
         "the REAL queue (time wheel, spool files, DSN generator) runs each to quiescence against a scripted target; the whole call/commit/report trace is compared "
         "with the Lean model's trace; distinct = distinct scenarios",
         explanation="theorems over all recipient lists, kinds, maxTries and plan streams (C01_exactly_one_outcome) and over all next-hop scripts for the three forwarding targets "
-        "(C01_hop_attempt_truthful, C01_hop_exactly_one_outcome); models tied to queue.go / remote.go / smtp_downstream.go / smtpconn.go by differential runs",
+        "(C01_hop_attempt_truthful, C01_hop_exactly_one_outcome, C01_hop_body_fault_not_acked); recipients are opaque identities in the model; models tied to queue.go / remote.go / smtp_downstream.go / smtpconn.go by differential runs",
         search=search,
     )
